@@ -444,13 +444,7 @@ Definition env_nonempty (sh : env_shape) : bool := match e_fields sh with [] => 
 Definition env_binds0 (sh : env_shape) : list pstr :=
   [S "_vars"] ++ when (env_nonempty sh) (map S ["_name"; "_env_var"; "_var_name"; "e"]%string).
 
-Definition env_init_raw (sh : env_shape) : fn :=
-  {| fn_name := S "__init__";
-     fn_params := env_fixed_params ++ map ef_name (e_fields sh);
-     fn_header := env_init_header sh;
-     fn_body := env_init_body sh;
-     fn_closure := env_closure sh;
-     fn_globals := env_globals sh |}.
+Definition env_init_raw (sh : env_shape) : fn := env_init_fn sh.
 
 (* fixed parameters, bound names, closure, builtins, globals, field parameters *)
 Definition env_pool (sh : env_shape) : list pstr :=
@@ -597,9 +591,8 @@ Proof.
     apply (env_allowed_closure sh); [reflexivity|]. unfold env_closure. do 2 (apply in_or_app; right). now left.
 Qed.
 
-Theorem env_init_closed sh f : env_init_fn sh = Some f -> closedb [] f = true.
+Theorem env_init_closed sh : closedb [] (env_init_fn sh) = true.
 Proof.
-  unfold env_init_fn. destruct (env_splice_ok sh); [|discriminate]. intro H. inversion H; subst f.
   change (closedb [] (env_init_raw sh) = true). apply closedb_intro.
   - intros x Hx. apply env_pool_avail. now apply env_init_body_pool.
   - apply env_init_header_ok.
@@ -616,12 +609,6 @@ Proof.
     apply (env_allowed_closure sh); [reflexivity|]. unfold env_closure. do 2 (apply in_or_app; right). right. now left.
 Qed.
 
-Theorem env_splice_refuted : exists sh, env_init_fn sh = None.
-Proof.
-  exists {| e_fields := [ {| ef_name := S "x"; ef_var := Some (S "A" ++ [c_dq] ++ S "B"); ef_default := EdNone |} ];
-            e_env_file := false; e_secrets_dir := false; e_prefix := None |}.
-  vm_compute. reflexivity.
-Qed.
 
 (* ======================================================================== *)
 (* v1 engine, load                                                            *)
